@@ -22,6 +22,7 @@ structure Abs (σ : State) (s : St) : Prop where
   sf : σ.get "SF" = some (ofBV (BitVec.ofBool s.sf))
   of : σ.get "OF" = some (ofBV (BitVec.ofBool s.of))
   mem : σ.mem = s.mem
+  endian : σ.endian = .little
 
 /-! ### the expressions `regGet` / `regSetExpr` return, written out -/
 
@@ -126,6 +127,7 @@ theorem abs_set_other {σ : State} {s : St} (ha : Abs σ s) (name : String) (c :
   sf := by rw [get_set_ne _ _ (Ne.symm h3)]; exact ha.sf
   of := by rw [get_set_ne _ _ (Ne.symm h4)]; exact ha.of
   mem := ha.mem
+  endian := ha.endian
 
 theorem abs_set_temp {σ : State} {s : St} (ha : Abs σ s) (a b w : Nat) (c : Const) :
     Abs (σ.set (temp a b w).name c) s :=
@@ -144,6 +146,7 @@ theorem abs_set_gpr {σ : State} {s : St} (ha : Abs σ s) {d : Nat} (hd : d < 16
   sf := by rw [get_set_ne _ _ (Ne.symm (rName_ne_flag hd (by simp [flagNames])))]; exact ha.sf
   of := by rw [get_set_ne _ _ (Ne.symm (rName_ne_flag hd (by simp [flagNames])))]; exact ha.of
   mem := ha.mem
+  endian := ha.endian
 
 theorem abs_set_cf {σ : State} {s : St} (ha : Abs σ s) (b : Bool) :
     Abs (σ.set "CF" (ofBV (BitVec.ofBool b))) { s with cf := b } where
@@ -153,6 +156,7 @@ theorem abs_set_cf {σ : State} {s : St} (ha : Abs σ s) (b : Bool) :
   sf := by rw [get_set_ne _ _ (by decide)]; exact ha.sf
   of := by rw [get_set_ne _ _ (by decide)]; exact ha.of
   mem := ha.mem
+  endian := ha.endian
 
 theorem abs_set_zf {σ : State} {s : St} (ha : Abs σ s) (b : Bool) :
     Abs (σ.set "ZF" (ofBV (BitVec.ofBool b))) { s with zf := b } where
@@ -162,6 +166,7 @@ theorem abs_set_zf {σ : State} {s : St} (ha : Abs σ s) (b : Bool) :
   sf := by rw [get_set_ne _ _ (by decide)]; exact ha.sf
   of := by rw [get_set_ne _ _ (by decide)]; exact ha.of
   mem := ha.mem
+  endian := ha.endian
 
 theorem abs_set_sf {σ : State} {s : St} (ha : Abs σ s) (b : Bool) :
     Abs (σ.set "SF" (ofBV (BitVec.ofBool b))) { s with sf := b } where
@@ -171,6 +176,7 @@ theorem abs_set_sf {σ : State} {s : St} (ha : Abs σ s) (b : Bool) :
   sf := by simp [get_set_self]
   of := by rw [get_set_ne _ _ (by decide)]; exact ha.of
   mem := ha.mem
+  endian := ha.endian
 
 theorem abs_set_of {σ : State} {s : St} (ha : Abs σ s) (b : Bool) :
     Abs (σ.set "OF" (ofBV (BitVec.ofBool b))) { s with of := b } where
@@ -180,6 +186,7 @@ theorem abs_set_of {σ : State} {s : St} (ha : Abs σ s) (b : Bool) :
   sf := by rw [get_set_ne _ _ (by decide)]; exact ha.sf
   of := by simp [get_set_self]
   mem := ha.mem
+  endian := ha.endian
 
 /-- the register file after the architecture's write of `v` to `r` -/
 theorem abs_setReg {σ : State} {s : St} (ha : Abs σ s) {r : GReg} (hi : r.idx < 16) (v : BitVec 64) :
